@@ -21,6 +21,7 @@ pub fn scenarios() -> Vec<Scenario> {
         scn!(scenario_altered_share_rejected, 6),
         scn!(scenario_invalid_parameters_refused, 6),
         scn!(scenario_largest_group, 1),
+        crate::wrap::scn_dealer(4),
     ]
 }
 
